@@ -509,7 +509,11 @@ def case_compute(ctx, inp):
     import warnings
     with warnings.catch_warnings():
         warnings.simplefilter("ignore")
-        out = dask.compute(*objs, traverse=traverse, scheduler=sch, optimize_graph=og, **kw)
+        try:
+            out = dask.compute(*objs, traverse=traverse, scheduler=sch, optimize_graph=og, **kw)
+        except Exception as e:
+            ctx.fail(f"dask.compute raised {type(e).__name__}: {str(e)[:150]}", observed=type(e).__name__)
+            return
     got = ["tuple", [_canon_result(o) for o in out]]
     if not ids or (not traverse and not any(a[0] == "coll" for a in args)):
         # `if not collections: return args` — nothing is touched, iterators stay iterators
